@@ -6,6 +6,7 @@ import (
 	"runtime"
 	"sort"
 	"sync"
+	"sync/atomic"
 	"testing"
 	"testing/synctest"
 	"time"
@@ -65,7 +66,7 @@ func genPlan(t *rapid.T) Plan {
 			r.Other = rapid.IntRange(0, 3).Draw(t, "other") == 0
 		}
 		r.Interval = rapid.SampledFrom([]int{10, 100, 300}).Draw(t, "interval")
-		r.Jitter = rapid.SampledFrom([]int{0, 1, r.Interval / 2, r.Interval - 1}).Draw(t, "jitter")
+		r.Jitter = rapid.SampledFrom([]int{0, 1, r.Interval / 2, r.Interval - 1, r.Interval, r.Interval * 3 / 2}).Draw(t, "jitter") // no domain is documented: a jitter >= interval just makes some waits zero
 		r.RunMs = rapid.SampledFrom([]int{0, 1, 5, r.Interval * 2}).Draw(t, "run")
 		if r.Kind == "PeriodicOrTrigger" && rapid.Bool().Draw(t, "slowpot") {
 			// runs longer than the interval: the tick fires during the run, so a trigger made during the run
@@ -628,4 +629,93 @@ func runFirstCall(p FirstCallPlan) (out vk.Outcome, verr error) {
 func TestTriggerFirstCallRace(t *testing.T) {
 	theT = t
 	vk.Run(t, suite, "trigger-first-call", 250, genFirstCall, runFirstCall)
+}
+
+// ---------------------------------------------------------------------------------------------
+// trigger storm: a trigger call placed in the instants right after a run has finished, while the
+// worker is on its way back to sleep. The call must still be followed by a run that begins after it.
+// Inside a bubble "no run followed" is decided at quiescence (synctest.Wait), not by a timeout.
+
+type TrigStormPlan struct {
+	Kind   string `json:"kind"` // Trigger | PeriodicOrTrigger
+	Rounds int    `json:"rounds"`
+	Sweep  int    `json:"sweep"` // the delay between the end of a run and the next trigger call sweeps 0..Sweep busy iterations
+}
+
+func genTrigStorm(t *rapid.T) TrigStormPlan {
+	return TrigStormPlan{Kind: rapid.SampledFrom([]string{"Trigger", "Trigger", "PeriodicOrTrigger"}).Draw(t, "kind"),
+		Rounds: rapid.IntRange(1000, 5000).Draw(t, "rounds"), Sweep: rapid.SampledFrom([]int{16, 64, 256}).Draw(t, "sweep")}
+}
+
+var stormSink atomic.Int64
+
+func runTrigStorm(p TrigStormPlan) (out vk.Outcome, verr error) {
+	var stuck string
+	func() {
+		defer func() {
+			if r := recover(); r != nil {
+				stuck = fmt.Sprint(r)
+			}
+		}()
+		synctest.Test(theT, func(t *testing.T) {
+			defer func() {
+				if r := recover(); r != nil {
+					verr = vk.Violf("panic", "panic inside bubble: %v", r)
+				}
+			}()
+			g := xsync.NewGroup(context.Background())
+			var started, ended atomic.Uint64
+			f := func(ctx context.Context) { started.Add(1); ended.Add(1) }
+			var trigger func()
+			if p.Kind == "Trigger" {
+				trigger = g.Trigger(f)
+			} else {
+				trigger = g.PeriodicOrTrigger(1000*time.Hour, 0, f)
+			}
+			// runAfter: has a run begun since `before` was sampled? spins briefly, then decides at quiescence
+			runAfter := func(c *atomic.Uint64, before uint64) bool {
+				for i := 0; i < 20000; i++ {
+					if c.Load() != before {
+						return true
+					}
+					if i%256 == 255 {
+						runtime.Gosched()
+					}
+				}
+				synctest.Wait()
+				return c.Load() != before
+			}
+			for round := 0; round < p.Rounds; round++ {
+				// the worker is idle and owes nothing: the previous round's run is over, its token used up
+				synctest.Wait()
+				b, e := started.Load(), ended.Load()
+				trigger()
+				if !runAfter(&ended, e) || started.Load() == b {
+					verr = vk.Violf("trigger-lost", "round %d: a %s trigger call on an idle worker was not followed by a run", round, p.Kind)
+					break
+				}
+				for k := 0; k < round%(p.Sweep+1); k++ {
+					stormSink.Add(1)
+				}
+				b = started.Load()
+				trigger()
+				if !runAfter(&started, b) {
+					verr = vk.Violf("trigger-lost", "round %d: a %s trigger call made right after a run had finished (%d busy iterations later) was never followed by a run that began after it", round, p.Kind, round%(p.Sweep+1))
+					break
+				}
+			}
+			g.StopAndWait()
+		})
+	}()
+	if stuck != "" && verr == nil {
+		verr = vk.Violf("stuck", "%s", stuck)
+	}
+	out.NonTrivial = true
+	out.Execs = p.Rounds
+	return out, verr
+}
+
+func TestTriggerStorm(t *testing.T) {
+	theT = t
+	vk.Run(t, suite, "trigger-storm", 40, genTrigStorm, runTrigStorm)
 }
